@@ -35,6 +35,11 @@ def cells(tier):
                             da = [[cancel(rid("M", 1))]] if (n >= 3 and not bad) else []
                             sc = scen(pool(size), [[M("M", n, nc, **opts)]] + ca + da, outcomes=["ret"] if comp else ["ret", "exc"])
                             out.append(cell(f"s{size} {'*' * stars}M{n}/{nc}{comp} bad={bad} {'cancelM1' if da else ''}", sc, MON))
+    for stars in [0, 1]:
+        sc = scen(pool(1), [[M("M", 4, 3, stars=stars)], [["set_size", 3]]], outcomes=["ret"])
+        out.append(cell(f"s1->3 {'*' * stars}M4/3 (pool grows during the call)", sc, MON))
+        sc = scen(pool(2), [[M("M", 4, 2, stars=stars, bad=[["T", 1]])], [A("A", 1)]], outcomes=["ret"])
+        out.append(cell(f"s2 {'*' * stars}M4/2 typebad[1]|A1", sc, MON))
     if not q:
         for size in [1, 2]:
             sc = scen(pool(size), [[M("M", 4, 2)], [M("N", 3, 1, stars=1)], [cancel(rid("N", 0))]], outcomes=["ret", "exc"], ecb="slow", slow_ids=[0])
